@@ -274,6 +274,10 @@ func runC05(p *Program, r *Result) {
 	if pf, rsf, ivf, df := r.anchor(pkgFormat, "", "Parse"), r.anchor(pkgFormat, "StanzaReader", "ReadStanza"), r.anchor(pkgFormat, "", "isValidString"), r.anchor(pkgFormat, "", "DecodeString"); pf != nil && rsf != nil && ivf != nil && df != nil {
 		checkCanonicalParse(p, r, pf, rsf, ivf, df)
 	}
+	r.Rule("R05.header-stanzas", "the header lists exactly the stanzas the recipients returned, each once, in order (= R01.9)", 1)
+	if enc := r.anchor(pkgAge, "", "Encrypt"); enc != nil {
+		checkHeaderStanzas(p, r, enc)
+	}
 	r.Rule("R05.chunking", "a full buffer is flushed as a non-final chunk only when more data is pending (= R12.4): the chunking is the specified one", 1)
 	checkChunkFlushGuard(p, r)
 }
